@@ -324,9 +324,19 @@ func (d *driver) runOne(ri int, r *runSpec, kf *knownFile) error {
 	if r.background {
 		rec["beside_the_other_runs"] = true
 	}
+	if len(r.procs) > 0 {
+		rec["gomaxprocs_cycle"] = r.procs
+	}
 	d.agg.runs = append(d.agg.runs, rec)
 	d.mu.Unlock()
 	return nil
+}
+
+func (r *runSpec) procsFor(batch int) int {
+	if len(r.procs) == 0 {
+		return 0
+	}
+	return r.procs[batch%len(r.procs)]
 }
 
 // runBatch supervises worker processes until the batch is complete; a worker
@@ -355,6 +365,9 @@ func (d *driver) runBatch(ri int, r *runSpec, bin string, batch, cases int, kf *
 		}
 		racePrefix := filepath.Join(d.scratch, tag+".race")
 		cmd.Env = append(os.Environ(), "GORACE=halt_on_error=0 log_path="+racePrefix, "GOTRACEBACK=all")
+		if pr := r.procsFor(batch); pr > 0 {
+			cmd.Env = append(cmd.Env, "GOMAXPROCS="+strconv.Itoa(pr))
+		}
 		ef, _ := os.Create(stderrPath)
 		cmd.Stderr = ef
 		cmd.Stdout = ef
@@ -508,7 +521,7 @@ func (d *driver) addViolation(v fw.Violation, kf *knownFile, r *runSpec, stderrT
 	}
 	d.agg.violations = append(d.agg.violations, v)
 	rp := fw.Replay{Property: v.Property, Engine: r.engine, Race: r.race, Netns: r.netns, Sig: v.Sig, Msg: v.Msg,
-		Seed: v.Seed, Batch: v.Batch, Index: v.Index, Tier: d.tier, Case: v.Case, Stderr: tailStr(stderrTail, 6000)}
+		Seed: v.Seed, Batch: v.Batch, Index: v.Index, Tier: d.tier, Procs: r.procsFor(v.Batch), Case: v.Case, Stderr: tailStr(stderrTail, 6000)}
 	dir := filepath.Join(verifDir, "out", "replay")
 	os.MkdirAll(dir, 0o755)
 	path := filepath.Join(dir, fmt.Sprintf("%s-%s-%d.json", v.Property, sanitize(v.Sig), d.seed))
@@ -678,6 +691,9 @@ func (d *driver) replay(path string) int {
 		cmd = exec.Command(bin, args...)
 	}
 	cmd.Env = append(os.Environ(), "GORACE=halt_on_error=0", "GOTRACEBACK=all")
+	if rp.Procs > 0 {
+		cmd.Env = append(cmd.Env, "GOMAXPROCS="+strconv.Itoa(rp.Procs))
+	}
 	b, werr := cmd.CombinedOutput()
 	res := readResult(out)
 	bad := false
